@@ -200,6 +200,22 @@ CLAIMED["C02"] = dict(
     technique="contract-based deductive verification: walkers = spec functions over an abstract tree (modular recursion, loop invariants), z3; bounded enumeration for the rest (labelled)",
     design="DESIGN.md §3 C02")
 
+CLAIMED["C10"] = dict(
+    text="Layered contracts on the real 7z reader and the archive member loops: _read_number equals the 7z NUMBER spec for every byte "
+         "stream (bit-vectors); _build_file_list maps the r-th stream-bearing file to the folder k with cum(k) <= r < cum(k+1) for any number "
+         "of files / folders; extractall hands every folder the slice archive[pack_pos + sum(pack_sizes[:k]) : +pack_sizes[k]] through the "
+         "coder chain (fails on the unfixed tree: F10, fix proposed); member j of a folder is the slice at the sum of the earlier sizes; the "
+         "ZIP / TAR / 7z loops select the visible supported members in container order and dispatch each with its own bytes, name, base-name "
+         "extractor and archive!/member path, a failing member affecting only itself; magic-byte table and tar modes. Header parsers "
+         "(_read_boolean_vector, PackInfo, UnpackInfo, Folder, SubStreamsInfo) are BOUNDED checks against the format grammar (never counted as proved). "
+         "Three recorded known findings (7z empty file taken for a directory; plain TAR whose first name starts with another magic; empty plain TAR).",
+    note="Assumed: decode (copy/LZMA/LZMA2), zipfile/tarfile member reads, the member extractors and the file system are uninterpreted (Trust); "
+         "lists built by append are the appended values in order (PY-LIST-ORDER); writers' invariants of the 7z format as preconditions; the "
+         "end-to-end statement is the composition of the layer contracts. Native replay: zipfile / tarfile / an independent minimal 7z writer.",
+    technique="contract-based deductive verification: bit-vector and integer-sequence VCs with prefix-sum lemmas over the real AST, "
+              "per-iteration ghost-event loop invariants, z3; native differential replay",
+    design="DESIGN.md §3 C10")
+
 PENDING = {}
 
 ALL = [f"C{i:02d}" for i in range(1, 21)]
